@@ -470,6 +470,10 @@ pub fn c09_small(cfg: &Cfg, rep: &mut Report, case_seed: u64) {
         rep.nontrivial.insert(hash_str(&case.g.structure_key()));
     }
     rep.sample(json!({"adf": case.text}));
+    // "under any variable order" includes orders obtained by re-sorting one parser between compilations
+    if rng.chance(1, 2) && !crate::meta::reused_parser_check(rep, &case, &mut rng, case_seed) {
+        return;
+    }
     for sort in SORTS {
         let replay = json!({"property": "c09", "case_seed": case_seed.to_string(), "adf": case.text, "sort": sort.name()});
         let o = match build(&case.text, sort, case.bio_ok) {
